@@ -282,14 +282,50 @@ func c14R2(c *Ctx, r *Report) {
 	}
 	fmts := callsIn(fn, "(Msg).SetRcodeFormatError")
 	var problems []string
-	if len(fmts) != 1 {
-		problems = append(problems, fmt.Sprintf("%d SetRcodeFormatError calls", len(fmts)))
-	} else {
-		fe := fmts[0].(ssa.Instruction)
-		req := fmts[0].Common().Args[0]
+	rcFormErr, _ := c.constInt("RcodeFormatError")
+	// the point where the request becomes the FORMERR skeleton: the call of SetRcodeFormatError(req, req), or, when
+	// that one-liner has been written out in place, the store of RcodeFormatError into the request (with QR set
+	// next to it; the ID is the request's own)
+	var fe ssa.Instruction
+	var req ssa.Value
+	rootOf := func(addr ssa.Value) ssa.Value {
+		for {
+			fa, ok := addr.(*ssa.FieldAddr)
+			if !ok {
+				return addr
+			}
+			addr = fa.X
+		}
+	}
+	if len(fmts) == 1 {
+		fe = fmts[0].(ssa.Instruction)
+		req = fmts[0].Common().Args[0]
 		if fmts[0].Common().Args[1] != req {
 			problems = append(problems, "the FORMERR reply does not take its ID from the request")
 		}
+	} else if len(fmts) == 0 {
+		var sts []*ssa.Store
+		for _, st := range append(storesToField(fn, "Msg", "Rcode"), storesToField(fn, "MsgHdr", "Rcode")...) {
+			if k, ok := constIntOf(st.Val); ok && k == rcFormErr {
+				sts = append(sts, st)
+			}
+		}
+		if len(sts) == 1 {
+			fe, req = sts[0], rootOf(sts[0].Addr)
+			qr := false
+			for _, st := range append(storesToField(fn, "Msg", "Response"), storesToField(fn, "MsgHdr", "Response")...) {
+				if b, ok := constBool(st.Val); ok && b && rootOf(st.Addr) == req && st.Block() == fe.Block() {
+					qr = true
+				}
+			}
+			if !qr {
+				problems = append(problems, "the FORMERR skeleton written in place does not set QR")
+			}
+		}
+	}
+	if fe == nil {
+		problems = append(problems, fmt.Sprintf("%d SetRcodeFormatError calls", len(fmts)))
+	} else {
 		for _, fld := range []string{"Ns", "Answer", "Extra"} {
 			passed, blk := mustPass(fn, fe.Block(), instrIndex(fe), func(x ssa.Instruction) bool {
 				st, ok := x.(*ssa.Store)
@@ -339,6 +375,10 @@ func c14R2(c *Ctx, r *Report) {
 	for _, st := range append(storesToField(fn, "Msg", "Rcode"), storesToField(fn, "MsgHdr", "Rcode")...) {
 		n++
 		k, ok := constIntOf(st.Val)
+		if ok && k == rcFormErr && ssa.Instruction(st) == fe {
+			n--
+			continue // the FORMERR skeleton written in place, examined above
+		}
 		if !ok || k != rcNotImp {
 			problems = append(problems, fmt.Sprintf("%s: serveDNS stores RCODE %v", c.pos(st.Pos()), st.Val))
 		}
@@ -349,7 +389,7 @@ func c14R2(c *Ctx, r *Report) {
 		restored := false
 		for _, so := range append(storesToField(fn, "Msg", "Opcode"), storesToField(fn, "MsgHdr", "Opcode")...) {
 			if so.Block() == st.Block() {
-				if u, ok := so.Val.(*ssa.UnOp); ok && u.Op == token.MUL && len(fmts) == 1 && precedes(u, fmts[0].(ssa.Instruction)) {
+				if u, ok := so.Val.(*ssa.UnOp); ok && u.Op == token.MUL && fe != nil && precedes(u, fe) {
 					restored = true
 				}
 			}
@@ -734,12 +774,48 @@ func c14R5(c *Ctx, r *Report) {
 	}
 	ms := c.Prog.MethodSets.MethodSet(types.NewPointer(muxT))
 	counter := map[string]int{}
+	// an unexported method called by the other methods with the lock held starts with the weakest state among its calls
+	first := map[*ssa.Function]*lockInfo{}
+	var methods []*ssa.Function
 	for i := 0; i < ms.Len(); i++ {
 		f := c.Prog.MethodValue(ms.At(i))
 		if f == nil || f.Synthetic != "" || len(f.Blocks) == 0 {
 			continue
 		}
-		li := computeLocks(f, "ServeMux", "m", lkNone)
+		methods = append(methods, f)
+		first[f] = computeLocks(f, "ServeMux", "m", lkNone)
+	}
+	entryOf := func(g *ssa.Function) int {
+		if g.Object() == nil || g.Object().Exported() {
+			return lkNone
+		}
+		entry, n := lkW, 0
+		for _, f := range methods {
+			if f == g {
+				continue
+			}
+			allInstrs(f, func(in ssa.Instruction) {
+				if ci, ok := in.(ssa.CallInstruction); ok && ci.Common().StaticCallee() == g {
+					n++
+					if _, isGo := in.(*ssa.Go); isGo {
+						entry = lkNone
+					}
+					if st := first[f].at[in]; st < entry {
+						entry = st
+					}
+				}
+			})
+		}
+		if n == 0 {
+			return lkNone
+		}
+		return entry
+	}
+	for _, f := range methods {
+		li := first[f]
+		if e := entryOf(f); e != lkNone {
+			li = computeLocks(f, "ServeMux", "m", e)
+		}
 		allInstrs(f, func(in ssa.Instruction) {
 			isZ := func(v ssa.Value) bool {
 				u, ok := v.(*ssa.UnOp)
@@ -835,13 +911,46 @@ func c14R5(c *Ctx, r *Report) {
 				canon = ci.Value()
 			}
 		}
+		// the walk may live in a helper match calls with the canonical name and the type (and the lock held)
+		wf, tP := f, ssa.Value(f.Params[2])
+		hasLookup := func(g *ssa.Function) bool {
+			found := false
+			allInstrs(g, func(in ssa.Instruction) {
+				if lk, ok := in.(*ssa.Lookup); ok {
+					if _, isMap := lk.X.Type().Underlying().(*types.Map); isMap {
+						found = true
+					}
+				}
+			})
+			return found
+		}
+		if g := calleeWith(f, hasLookup); g != nil && g != f {
+			for _, ci := range callsInFn(f, g) {
+				for i, a := range ci.Common().Args {
+					if i >= len(g.Params) {
+						continue
+					}
+					if canon != nil && a == canon {
+						canon = g.Params[i]
+						wf = g
+					}
+					if a == ssa.Value(f.Params[2]) {
+						tP = g.Params[i]
+					}
+				}
+			}
+			if wf != g {
+				problems = append(problems, fmt.Sprintf("%s is not handed the canonical question name", fnDisplay(g)))
+			}
+			r.fn(fnDisplay(g))
+		}
 		if canon == nil {
 			problems = append(problems, "the question name is not canonicalised")
 		}
 		typeDS, _ := c.constInt("TypeDS")
 		nSuffix, nRoot := 0, 0
 		var rootLookup ssa.Instruction
-		allInstrs(f, func(in ssa.Instruction) {
+		allInstrs(wf, func(in ssa.Instruction) {
 			lk, ok := in.(*ssa.Lookup)
 			if !ok {
 				return
@@ -869,7 +978,7 @@ func c14R5(c *Ctx, r *Report) {
 			problems = append(problems, fmt.Sprintf("%d suffix lookups and %d root lookups, expected one each", nSuffix, nRoot))
 		}
 		// returns: a handler found in the walk is returned early only on t != DS; the root lookup is not inside the loop
-		for _, blk := range f.Blocks {
+		for _, blk := range wf.Blocks {
 			ret, ok := blk.Instrs[len(blk.Instrs)-1].(*ssa.Return)
 			if !ok {
 				continue
@@ -890,7 +999,7 @@ func c14R5(c *Ctx, r *Report) {
 					cst, ok := lk.Index.(*ssa.Const)
 					return ok && cst.Value != nil && cst.Value.ExactString() == `"."`
 				}, Holds: false}
-				if miss := guardsMissing(f, blk, []Guard{rootMissed}); len(miss) > 0 {
+				if miss := guardsMissing(wf, blk, []Guard{rootMissed}); len(miss) > 0 {
 					problems = append(problems, fmt.Sprintf("%s: the handler remembered for a DS query is returned although the root pattern may be registered (the parent must win)", c.pos(ret.Pos())))
 				}
 				continue
@@ -909,13 +1018,13 @@ func c14R5(c *Ctx, r *Report) {
 			// a zone match is returned at once when the type is not DS, or when it was found above the name itself
 			// (that zone holds the DS); only a match at the name itself is remembered while the walk looks for a parent
 			for _, p := range blk.Preds {
-				fs := factsAt(f, p)
+				fs := factsAt(wf, p)
 				if ef, ok := edgeFact(p, blk); ok {
 					fs = append(fs, ef)
 				}
 				notDS, above := false, false
 				for _, fc := range fs {
-					if matchGuard(fc, Guard{Op: "eq", A: func(v ssa.Value) bool { return v == f.Params[2] }, B: isConstInt(typeDS), Holds: false}) {
+					if matchGuard(fc, Guard{Op: "eq", A: func(v ssa.Value) bool { return v == tP }, B: isConstInt(typeDS), Holds: false}) {
 						notDS = true
 					}
 					if lo, _, hasLo, _ := intervalFromFact(fc, func(v ssa.Value) bool {
@@ -932,7 +1041,7 @@ func c14R5(c *Ctx, r *Report) {
 		}
 		// the handler remembered for a DS query is a match at the name itself (offset 0) only: a match further up is the
 		// zone that holds the DS and must be returned, not overwritten by ancestors further up still
-		allInstrs(f, func(in ssa.Instruction) {
+		allInstrs(wf, func(in ssa.Instruction) {
 			phi, ok := in.(*ssa.Phi)
 			if !ok {
 				return
@@ -954,7 +1063,7 @@ func c14R5(c *Ctx, r *Report) {
 					_, isPhi := v.(*ssa.Phi)
 					return isPhi && anyIn(sliceOf(sl0Low(lk)), isValue(v))
 				}
-				_, hi, _, hasHi := intervalAt(f, pred, offPhi)
+				_, hi, _, hasHi := intervalAt(wf, pred, offPhi)
 				if ef, ok := edgeFact(pred, phi.Block()); ok {
 					if _, h2, _, has2 := intervalFromFact(ef, offPhi); has2 && (!hasHi || h2 < hi) {
 						hi, hasHi = h2, true
@@ -968,7 +1077,7 @@ func c14R5(c *Ctx, r *Report) {
 		if rootLookup != nil {
 			// the root lookup is outside the walk: its block is not inside a cycle through the suffix lookup
 			var sfx ssa.Instruction
-			allInstrs(f, func(in ssa.Instruction) {
+			allInstrs(wf, func(in ssa.Instruction) {
 				if lk, ok := in.(*ssa.Lookup); ok {
 					if _, isSl := lk.Index.(*ssa.Slice); isSl {
 						sfx = lk
